@@ -1,7 +1,14 @@
 
 // ---------------------------------------------------------------------------------------
-// Kani stand-in for the ASSUMED Verus contract of `unique` (src/algorithms/utils.rs).
-// Appended by tools/standins.py to a scratch copy of src/algorithms/utils.rs.
+// Kani harness for the ASSUMED Verus contract of `unique` (src/algorithms/utils.rs).
+//
+// NOT REGISTERED in tools/standins.py: INFEASIBLE with Kani 0.68 / CBMC 6.11 on this machine
+// (probed 2026-10-04): `unique_len2_sym2` (2 items, 2 symbols, symbolic range) hit the 600 s
+// harness timeout, and even a 1-item slice (one symbolic u8) with the concrete range 0..1 did
+// not get out of symbolic execution in 360 s (HashMap<_, _, RandomState> entry API + SipHash +
+// hashbrown into_iter + collect + sort_by_key's smallsort over a Vec of symbolic length).
+// The contract of `unique` therefore stays assumed-only.  The file is kept so that the probe can
+// be repeated (append to src/algorithms/utils.rs of a scratch copy).
 //
 // Bound: lookup is a slice `&[u8]` of concrete length LEN with symbolic contents over SYMS
 // symbols, range symbolic with start <= end <= LEN.  (HashMap with RandomState under CBMC is
